@@ -250,6 +250,25 @@ FuncVal(c, x, D) ==
        [] c.type = "CountConstraint" -> D * Cardinality({j \in 1..n : Truth(a[j])})
        [] c.type = "PowConstraint" -> IntPow(a[1], c.params[1][1])      \* D = 1, integer exponent >= 0
 
+\* value of a piecewise-linear function given by points (same segment choice as PLConSat): {} when off the grid
+PLVal(p, t) ==
+  LET n == Len(p.x)
+      X(i) == p.x[i][1]   Y(i) == p.y[i][1]
+      seg == IF n = 1 THEN 0
+             ELSE IF t <= X(1) THEN 1
+             ELSE IF t >= X(n) THEN n - 1
+             ELSE CHOOSE i \in 1..(n - 1) : X(i) <= t /\ t <= X(i + 1)
+  IN IF n = 1 THEN {Y(1)}
+     ELSE LET num == (Y(seg + 1) - Y(seg)) * (t - X(seg))   den == X(seg + 1) - X(seg)
+          IN IF Divides(den, num) THEN {Y(seg) + SDiv(num, den)} ELSE {}
+\* the value a functional constraint determines for its result, as a set (empty: none on the grid)
+FuncValSet(c, x, D) ==
+  IF c.type = "PLConstraint" THEN PLVal(c.pl, x[c.args[1] + 1])
+  ELSE IF c.type = "DivConstraint"
+    THEN LET a1 == x[c.args[1] + 1]  a2 == x[c.args[2] + 1]
+         IN IF a2 # 0 /\ Divides(a2, D * a1) THEN {SDiv(D * a1, a2)} ELSE {}
+  ELSE {FuncVal(c, x, D)}
+
 FuncComputable(c, D) ==
   c.type \in {"MaxConstraint", "MinConstraint", "AbsConstraint", "AndConstraint", "OrConstraint",
               "NotConstraint", "IfThenConstraint", "ImplicationConstraint", "AllDiffConstraint",
@@ -331,7 +350,7 @@ StepDom(d, st, x, D) ==
                THEN LET sum == PAdd(BodyVal(c.expr, x), RhsU(c.expr.c, D))
                     IN IF sum[2] = 0 /\ sum[1] % D = 0 THEN {sum[1] \div D} \cap full ELSE {}
              ELSE IF c.k = "cond" THEN {D * B2I(AlgSat(c.con, x, D))} \cap full
-             ELSE {FuncVal(c, x, D)} \cap full
+             ELSE FuncValSet(c, x, D) \cap full
 
 StepOK(d, st, x, D) == \A j \in 1..Len(st.chk) : ConSat(d.cons[st.chk[j]], x, D)
 
@@ -384,7 +403,7 @@ StepVal(d, st, x, D) ==
             THEN LET sum == PAdd(BodyVal(c.expr, x), RhsU(c.expr.c, D))
                  IN IF sum[2] = 0 /\ sum[1] % D = 0 THEN {sum[1] \div D} ELSE {}
           ELSE IF c.k = "cond" THEN {D * B2I(AlgSat(c.con, x, D))}
-          ELSE {FuncVal(c, x, D)}
+          ELSE FuncValSet(c, x, D)
 RECURSIVE CanonFrom(_, _, _, _)
 \* returns {} (not canonical) or {x}
 CanonFrom(d, k, x, D) ==
